@@ -288,6 +288,16 @@ def unparse_Attribute(node: Attribute) -> unparse_gen_t:
 
 def unparse_Subscript(node: Subscript) -> unparse_gen_t:
     value = yield PREC_ATTR_SLOT, node.value
+    if isinstance(node.slice, Tuple) and any(
+        isinstance(elt, Slice) for elt in node.slice.elts
+    ):
+        # a[1:2, 3]: slices are only valid directly inside the brackets
+        elts = []
+        for item in node.slice.elts:
+            elts.append((yield PREC_EXPR_SLOT, item))
+        if len(elts) == 1:
+            elts.append("")
+        return f"{value}[{','.join(elts)}]"
     _slice = yield PREC_EXPR_SLOT, node.slice
     return f"{value}[{_slice}]"
 
